@@ -402,8 +402,62 @@ fn sender_classes(sim: &Sim) -> Vec<String> {
 /// The matrix on the current state and on three derived ownership states of every ownable
 /// contract: transfer pending (nominee != owner), transfer completed (ex-owner exists),
 /// transfer abandoned (a replaced nominee exists).
+/// Token-address immutability on a hub that is wired step by step (the deployed hub of a
+/// run is wired in one message): each token address can be set exactly once, in either
+/// order, whatever else is or is not registered yet.
+fn c10_partial_wiring(sim: &mut Sim, rng: &mut Rng, idx: usize, out: &mut Vec<Violation>) {
+    let mut w = sim.w.clone();
+    let hub2 = "hubfresh";
+    let init = basset::hub::InstantiateMsg {
+        epoch_period: sim.cfg.epoch_period,
+        underlying_coin_denom: DENOM.into(),
+        unbonding_period: sim.cfg.unbonding_period,
+        peg_recovery_fee: sim.cfg.peg_fee(),
+        er_threshold: sim.cfg.threshold(),
+        reward_denom: REWARD_DENOM.into(),
+        update_reward_index_addr: UPDATER.into(),
+    };
+    if crate::wasm::instantiate(&mut w, hub2, Kind::Hub, OWNER, &init).is_err() {
+        return;
+    }
+    sim.stats.check("c10_partial_wiring");
+    let cfg_of = |w: &World| crate::wasm::query_json(w, hub2, &json!({"config": {}})).unwrap_or(Value::Null);
+    let send = |w: &mut World, msg: Value| -> bool {
+        let tx = Tx { sender: OWNER.into(), contract: hub2.into(), msg, funds: vec![] };
+        let (nw, _) = crate::wasm::run_tx(w, &tx, None);
+        match nw {
+            Some(nw) => {
+                *w = nw;
+                true
+            }
+            None => false,
+        }
+    };
+    let order: [(&str, &str); 2] = if rng.chance(1, 2) { [("bsei_token_contract", BSEI), ("stsei_token_contract", STSEI)] } else { [("stsei_token_contract", STSEI), ("bsei_token_contract", BSEI)] };
+    // optionally register other collaborators in between, as an operator might
+    for (i, (field, addr)) in order.iter().enumerate() {
+        if !send(&mut w, json!({"update_config": {*field: addr}})) {
+            viol(out, "C10", "token_address_can_be_set_once", idx, &format!("hub.update_config:{}_first_set_refused", field), format!("setting {} for the first time (step {}) was refused", field, i));
+            return;
+        }
+        if rng.chance(1, 2) {
+            send(&mut w, json!({"update_config": {"rewards_dispatcher_contract": DISPATCHER}}));
+        }
+        // every field set so far is frozen now
+        for (f2, _) in order.iter().take(i + 1) {
+            let before = cfg_of(&w);
+            let accepted = send(&mut w, json!({"update_config": {*f2: FOREIGN_CW20}}));
+            let after = cfg_of(&w);
+            if accepted || before.get(*f2) != after.get(*f2) {
+                viol(out, "C10", "token_addresses_immutable", idx, &format!("hub.update_config:{}_changed_after_set", f2), format!("{} could be changed after it was set (other token {} yet): {} -> {}", f2, if i == 0 { "not registered" } else { "registered" }, before.get(*f2).cloned().unwrap_or(Value::Null), after.get(*f2).cloned().unwrap_or(Value::Null)));
+            }
+        }
+    }
+}
+
 fn c10_matrix(sim: &mut Sim, rng: &mut Rng, idx: usize, out: &mut Vec<Violation>) {
     c10_matrix_on(sim, idx, out);
+    c10_partial_wiring(sim, rng, idx, out);
     let variant = rng.below(3);
     let mut c = child_of(sim);
     for contract in [HUB, DISPATCHER, REWARD, REGISTRY] {
